@@ -32,9 +32,10 @@ const (
 	cInvalid
 	cMalformed
 	cDuplicated
+	cEmpty // present with an empty value: still a credential, and an invalid one
 )
 
-var carrierNames = []string{"absent", "valid", "invalid-signature", "malformed", "duplicated"}
+var carrierNames = []string{"absent", "valid", "invalid-signature", "malformed", "duplicated", "empty"}
 
 func runC04(a args) error {
 	out := hx.NewOut(a.out, "HttpCases", "c04_case", "c04_agree", "c04_ok")
@@ -83,12 +84,16 @@ func runC04(a args) error {
 			case cDuplicated:
 				e.Valid(tok[x], cl[x])
 				return []string{tok[x], tok[x]}
+			case cEmpty:
+				return []string{""}
 			}
 			return nil
 		}
 		if v := val("h", st[0]); v != nil {
 			for i := range v {
-				v[i] = "Bearer " + v[i]
+				if st[0] != cEmpty {
+					v[i] = "Bearer " + v[i]
+				}
 			}
 			q.AuthHdr = v
 		}
@@ -186,9 +191,9 @@ func runC04(a args) error {
 	for _, ep := range []string{"publish", "subscribe", "subscriptions"} {
 		for _, anonymous := range []bool{false, true} {
 			for _, cookieName := range []string{"", "customCookie"} {
-				for h := cAbsent; h <= cDuplicated; h++ {
-					for q := cAbsent; q <= cDuplicated; q++ {
-						for c := cAbsent; c <= cDuplicated; c++ {
+				for h := cAbsent; h <= cEmpty; h++ {
+					for q := cAbsent; q <= cEmpty; q++ {
+						for c := cAbsent; c <= cEmpty; c++ {
 							cfg := cfgT{anonymous, cookieName, []string{allowedOrigin}}
 							if err := runCase(cfg, ep, [3]carrierState{h, q, c}, allowedOrigin, ""); err != nil {
 								return err
